@@ -79,6 +79,18 @@ def fake_replace(src, dst):
     boundary()
 
 
+def real_replace_then_die(src, dst):
+    """kind realreplace: genuine buffered file objects (no shim); die right BEFORE (odd n) / AFTER (even n) the k-th rename.
+    Data still sitting in a Python-level buffer at that moment is lost, exactly as in a real crash."""
+    counters["fileop"] += 1
+    if counters["fileop"] == n:
+        os._exit(77)
+    real_replace(src, dst)
+    counters["fileop"] += 1
+    if counters["fileop"] == n:
+        os._exit(77)
+
+
 def tracer(frame, event, arg):
     if "synced_collections" not in frame.f_code.co_filename:
         return None
@@ -95,6 +107,10 @@ def arm():
         os.replace = fake_replace
         import synced_collections.backends.collection_json as cj
         cj.os.replace = fake_replace
+    if kind == "realreplace":
+        os.replace = real_replace_then_die
+        import synced_collections.backends.collection_json as cj
+        cj.os.replace = real_replace_then_die
     if kind == "line" or (kind == "count" and n == 0):
         sys.settrace(tracer)
 
